@@ -45,6 +45,7 @@ type Rule struct {
 	Title    string
 	Mod      string // module the rule analyses
 	Floor    int    // minimum number of non-canary instances (discharged+violated+undecided)
+	FloorBy  map[string]int // per-property floor (signal-scoped rules); overrides Floor
 	Thorough bool   // runs only in the thorough tier
 	Canary   string // canary source ("" = anchor-specific rule, the real code is its instance)
 	Run      func(c *Ctx, p *Prog)
@@ -126,9 +127,17 @@ func (c *Ctx) add(st Status, key, pos, fn, msg string) *Obligation {
 	if strings.Contains(key, "zzverifcanary") || strings.HasPrefix(pos, "canary:") || strings.Contains(fn, "zzverifcanary") {
 		o.Canary = true
 	}
+	if !o.Canary && Scope != nil && !Scope(c.Property, pos, fn) {
+		// the construct belongs to another signal's encoder/decoder: not evidence for (or against) this property
+		c.Stats["out_of_scope_constructs_skipped"]++
+		return o
+	}
 	c.Obs = append(c.Obs, o)
 	return o
 }
+
+// Scope, when set, tells whether a construct at pos / in function fn is relevant to the property.
+var Scope func(property, pos, fn string) bool
 
 // OK records a discharged obligation.
 func (c *Ctx) OK(key, pos, fn, msg string) { c.add(Discharged, key, pos, fn, msg) }
@@ -254,9 +263,13 @@ func (c *Ctx) Run() int {
 			n++
 		}
 		ruleCount[r.ID] = n
-		if n < r.Floor {
+		floor := r.Floor
+		if f, ok := r.FloorBy[c.Property]; ok {
+			floor = f
+		}
+		if n < floor {
 			c.cur = r
-			c.Undecided("floor", "?", "", fmt.Sprintf("rule %s matched %d instances, fewer than the %d confirmed by hand: an anchor no longer resolves", r.ID, n, r.Floor))
+			c.Undecided("floor", "?", "", fmt.Sprintf("rule %s matched %d instances, fewer than the %d confirmed by hand: an anchor no longer resolves", r.ID, n, floor))
 			c.cur = nil
 		}
 		if r.Canary != "" {
@@ -351,7 +364,11 @@ func (c *Ctx) Run() int {
 	}
 	var revs []ruleEv
 	for _, r := range c.activeRules() {
-		ev := ruleEv{Rule: r.ID, Title: r.Title, Floor: r.Floor, Instances: ruleCount[r.ID], Canary: "none (anchor-specific rule; the anchored code is the instance)"}
+		fl := r.Floor
+		if f, ok := r.FloorBy[c.Property]; ok {
+			fl = f
+		}
+		ev := ruleEv{Rule: r.ID, Title: r.Title, Floor: fl, Instances: ruleCount[r.ID], Canary: "none (anchor-specific rule; the anchored code is the instance)"}
 		cb, cg := 0, 0
 		for _, o := range c.Obs {
 			if o.Rule != r.ID {
